@@ -81,12 +81,16 @@ C01Group(i) ==
 (* documented end reason applies to this transition.                       *)
 (***************************************************************************)
 C11Group(i, T, sc, otherEnd) ==
-  LET ts == Ev(i).ts IN
+  LET ts == Ev(i).ts
+      \* The step number is the number of step calls since reset as counted by the RECORDER (field i of the
+      \* event), not the implementation's own counter sc: a counter that drifts must not move the deadline.
+      \* (Episodes started from an injected mid-episode state have no call count: there the counter is used.)
+      n  == IF "injected" \in DOMAIN TraceCfg /\ TraceCfg.injected THEN sc ELSE Ev(i).i IN
   IF IsReset(i) \/ Ev(i).pl THEN {}
   ELSE
-    { <<"C11.last_at_time_limit", sc >= T => ts.type = LAST>>,
-      <<"C11.no_mid_at_or_after_limit", ts.type = MID => sc < T>>,
-      <<"C11.early_last_has_other_reason", (ts.type = LAST /\ sc < T) => otherEnd>> }
+    { <<"C11.last_at_time_limit", n >= T => ts.type = LAST>>,
+      <<"C11.no_mid_at_or_after_limit", ts.type = MID => n < T>>,
+      <<"C11.early_last_has_other_reason", (ts.type = LAST /\ n < T) => otherEnd>> }
 
 (***************************************************************************)
 (* The behaviour: one step per trace line.  Cl(i) is the clause set of     *)
